@@ -6,6 +6,7 @@ import (
 	"fmt"
 	"math/rand/v2"
 	"runtime"
+	"strings"
 	"sync"
 	"time"
 
@@ -34,6 +35,8 @@ type c12Cell struct {
 	Caller    string // none | long | short : deadline of the caller's context
 	StallExch int    // which exchange of the run is stalled (1-based; PFS runs two)
 	StallStep int    // 0: no stall (control); 2 resPQ, 5 server_DH_params, 8 dh_gen answer withheld
+	PreCode   int    // transport error code delivered PreK times at the stall point before the silence (0: none)
+	PreK      int
 }
 
 func (c c12Cell) id() string {
@@ -44,7 +47,11 @@ func (c c12Cell) id() string {
 			m = "/temp"
 		}
 	}
-	return fmt.Sprintf("%s%s/caller=%s/stall=%d.%d", c.Entry, m, c.Caller, c.StallExch, c.StallStep)
+	pre := ""
+	if c.PreK > 0 {
+		pre = fmt.Sprintf("/pre=%dx-%d", c.PreK, c.PreCode)
+	}
+	return fmt.Sprintf("%s%s/caller=%s/stall=%d.%d%s", c.Entry, m, c.Caller, c.StallExch, c.StallStep, pre)
 }
 
 type c12Event struct {
@@ -182,7 +189,7 @@ const (
 func runC12Cell(d *dataSet, cell c12Cell, seed *rand.Rand, T time.Duration) (out c12Outcome) {
 	out.Cell = cell.id()
 	conn := newFakeConn("client")
-	rec := &c12Rec{T: T, stallAt: [2]int{cell.StallExch, cell.StallStep}, stalled: make(chan c12Event, 1), idleRx: make(chan struct{}, 1)}
+	rec := &c12Rec{T: T, stallAt: [2]int{cell.StallExch, cell.StallStep}, stalled: make(chan c12Event, 32), idleRx: make(chan struct{}, 1)}
 	if cell.StallStep == 0 {
 		rec.stallAt = [2]int{-1, -1}
 	}
@@ -220,6 +227,14 @@ func runC12Cell(d *dataSet, cell c12Cell, seed *rand.Rand, T time.Duration) (out
 				prime: d.primes["safe2048_telegram"], g: 3}
 			if cell.StallExch == i {
 				k.stopBefore = cell.StallStep
+				if cell.PreK > 0 {
+					// transport-level error frames (4-byte codes) first, then silence
+					k.onStall = func() {
+						for n := 0; n < cell.PreK; n++ {
+							conn.deliverErr(fmt.Errorf("read: %w", &codec.ProtocolErr{Code: int32(cell.PreCode)}))
+						}
+					}
+				}
 			}
 			r := runScripted(conn, k, sRand, stopSrv)
 			rs = append(rs, r)
@@ -320,37 +335,47 @@ func runC12Cell(d *dataSet, cell c12Cell, seed *rand.Rand, T time.Duration) (out
 			}
 		}
 	} else {
-		select {
-		case e := <-rec.stalled:
-			out.StallReached = true
-			switch {
-			case cell.Caller == "short":
-				// bounded only by the caller's own (5 min) deadline, which is within the 1 h
-				// exchange timeout: not waited for.
-				out.Note = "stalled recv observed; not waited for (caller deadline 5 min)"
-				release()
-			case e.Bounded:
-				// the step carries a deadline within the exchange timeout: the run must end by itself
-			default:
-				// logically unbounded; confirm by outcome that it is still pending after a settle
-				// period of several exchange timeouts, then release it
-				select {
-				case err := <-runDone:
-					finish(err)
-				case <-time.After(6 * T):
-					out.BlockedSettle = true
+		// every Recv the flow issues at the stall point is looked at (the flow may re-read after
+		// skipped transport errors); the first one that is not bounded decides how the run is released
+	stallLoop:
+		for !out.Returned {
+			select {
+			case e := <-rec.stalled:
+				out.StallReached = true
+				switch {
+				case cell.Caller == "short":
+					// bounded only by the caller's own (5 min) deadline, which is within the 1 h
+					// exchange timeout: not waited for.
+					out.Note = "stalled recv observed; not waited for (caller deadline 5 min)"
 					release()
+					if !waitRun("waiting for the released run to end") {
+						return
+					}
+				case e.Bounded:
+					// the step carries a deadline within the exchange timeout: the run must end by itself
+					// (or re-read, which shows up as the next event)
+				default:
+					// logically unbounded; confirm by outcome that it is still pending after a settle
+					// period of several exchange timeouts, then release it
+					select {
+					case err := <-runDone:
+						finish(err)
+					case <-time.After(6 * T):
+						out.BlockedSettle = true
+						release()
+						if !waitRun("waiting for the released run to end") {
+							return
+						}
+					}
 				}
-			}
-			if !out.Returned && !waitRun("waiting for the stalled run to end") {
+			case err := <-runDone:
+				finish(err) // ended by itself (or before the stall point: spurious timeout under load)
+				break stallLoop
+			case <-watchdog.C:
+				out.inconclusive = fmt.Sprintf("cell %s: watchdog in a stalled run (stall reached: %v)\n%s", out.Cell, out.StallReached, goroutineDump())
+				release()
 				return
 			}
-		case err := <-runDone:
-			finish(err) // ended before the stall point was reached (spurious timeout under load?)
-		case <-watchdog.C:
-			out.inconclusive = fmt.Sprintf("cell %s: watchdog before the stall point\n%s", out.Cell, goroutineDump())
-			release()
-			return
 		}
 	}
 	close(stopSrv)
@@ -401,13 +426,30 @@ func c12Cells() []c12Cell {
 			}
 		}
 	}
+	// the peer first delivers transport error frames at the read step, then falls silent:
+	// -404 is skipped by the ResPQ read (re-read), any other code must fail the step at once
+	for _, caller := range []string{"none", "long"} {
+		for _, step := range []int{2, 5, 8} {
+			for _, pre := range [][2]int{{404, 1}, {404, 2}, {404, 5}, {429, 1}} {
+				for _, e := range []c12Cell{{Entry: "exchange"}, {Entry: "exchange", Temp: true}, {Entry: "conn-nopfs"}, {Entry: "conn-regen"},
+					{Entry: "conn-pfs"}, {Entry: "conn-pfs", StallExch: 2}} {
+					e.Caller, e.StallStep, e.PreCode, e.PreK = caller, step, pre[0], pre[1]
+					if e.StallExch == 0 {
+						e.StallExch = 1
+					}
+					cells = append(cells, e)
+				}
+			}
+		}
+	}
 	return cells
 }
 
 func runC12(c *mon.Ctx) {
 	c.Rule("cells = entry point {exchange.ClientExchange.Run perm/temp, mtproto.Conn.Run without PFS (fresh key), with PFS (permanent then temporary exchange), " +
 		"regeneration after a transport -404 with a preset key} x caller context {no deadline, 3 h deadline, 5 min deadline with 1 h exchange timeout} x " +
-		"silent peer at {none, resPQ, server_DH_params, dh_gen} of each exchange, enumerated completely per repetition; the transport records ctx.Deadline() of every " +
+		"silent peer at {none, resPQ, server_DH_params, dh_gen} of each exchange, plus (caller none / far deadline) the peer delivering k in {1,2,5} transport -404 frames or one -429 frame " +
+		"at that read step before falling silent, enumerated completely per repetition; the transport records ctx.Deadline() of every " +
 		"Send/Recv of the client flow; a case is one judged Send/Recv; distinct non-trivial = (cell, op, step, deadline class)")
 	c.Assume("the harness transport honours exactly the context deadline (as transport.connection does via SetRead/WriteDeadline) and not cancellation")
 	c.Assume("a step is bounded iff deadline - time_of_call <= configured exchange timeout; time_of_call is read after the flow built its context, so scheduling delay can only shrink the difference")
@@ -433,6 +475,7 @@ func runC12(c *mon.Ctx) {
 	var mu sync.Mutex
 	classCount := map[string]int64{}
 	blocked, stallReached, stallCells, controlsOK := 0, 0, 0, 0
+	preOutcomes := map[string]map[string]int{}
 	parallel(len(jobs), 16, func(i int) {
 		j := jobs[i]
 		var out c12Outcome
@@ -459,6 +502,17 @@ func runC12(c *mon.Ctx) {
 				return
 			}
 			stallReached++
+			if j.cell.PreK > 0 {
+				k := fmt.Sprintf("%dx%d@%s", j.cell.PreK, j.cell.PreCode, stepName(j.cell.StallStep))
+				if preOutcomes[k] == nil {
+					preOutcomes[k] = map[string]int{}
+				}
+				e := out.RunErr
+				if i := strings.LastIndex(e, "read "); i > 0 {
+					e = e[i:]
+				}
+				preOutcomes[k][e]++
+			}
 			if out.BlockedSettle {
 				blocked++
 			}
@@ -498,6 +552,7 @@ func runC12(c *mon.Ctx) {
 		c.Sample(j.cell.Entry, map[string]any{"cell": out.Cell, "events": out.Events, "run_error": out.RunErr, "still_blocked_after_settle": out.BlockedSettle})
 	})
 	c.Set("judged_by_step_and_class", classCount)
+	c.Set("outcome_after_transport_error_frames", preOutcomes)
 	c.Set("stall_cells", stallCells)
 	c.Set("stall_points_reached", stallReached)
 	c.Set("stalled_runs_still_blocked_after_settle", blocked)
